@@ -301,6 +301,51 @@ ROUTES = ['xml', 'gz', 'xz', 'pkg', 'coll', 'tar', 'tar.gz', 'tar.xz', 'tarpkg',
           'tarpkg.xz', 'tarcoll.xz', 'mem']
 
 
+def project_trees(rng, n):
+    """path trees for WnProject: packages, collections, archives, compressed files and
+    the shapes that must be refused"""
+    def f(what):
+        return {'k': 'file', 'what': what}
+    lm = lambda r: f('lmf:' + r)
+    il = lambda x: f('ili:' + x)
+    other = f('other')
+
+    def d(*kids):
+        return {'k': 'dir', 'kids': list(kids)}
+
+    def tar(*kids, unsafe=False):
+        return {'k': 'tar', 'kids': list(kids), 'unsafe': unsafe}
+    fixed = [
+        lm('Ra1'), il('f1'), other,
+        {'k': 'gz', 'of': lm('Ru')}, {'k': 'xz', 'of': il('f2')}, {'k': 'gz', 'of': other},
+        d(lm('Ra1'), other), d(lm('Ra1'), lm('Ru')), d(), d(other), d(il('f1'), other),
+        d(d(lm('Ra1'), other), d(lm('Ru')), other),                 # collection
+        d(d(lm('Ra1')), d(other), d(lm('Ru'), lm('Rr'))),           # one good package, two non-packages
+        d(d(il('f1')), d(lm('Ra2'))),                               # an ILI package in a collection
+        d(d(d(lm('Ra1')))),                                         # a collection of collections: refused
+        d({'k': 'gz', 'of': lm('Ra1')}),                            # compressed file inside a directory
+        tar(lm('Ra1')), tar(lm('Ra1'), lm('Ru')), tar(), tar(d(lm('Rr'), other)),
+        tar(d(d(lm('Ra1')), d(lm('Ru')))), tar(lm('Ra1'), unsafe=True), tar(other),
+        tar(d(lm('Ra1'), lm('Ru'))), tar(tar(lm('Ra1'))),
+        d(d(lm('Rx')), d(lm('Ra1'))),                               # extension and base as packages
+    ]
+    res = ['Ra1', 'Ra2', 'Ru', 'Rr', 'Rab', 'Rx']
+
+    def rnd(depth):
+        c = rng.random()
+        if depth >= 3 or c < 0.35:
+            return rng.choice([lm(rng.choice(res)), il(rng.choice(['f1', 'f2', 'f3'])), other, other])
+        if c < 0.45:
+            return {'k': rng.choice(['gz', 'xz']), 'of': rnd(3)}
+        if c < 0.8:
+            return d(*[rnd(depth + 1) for _ in range(rng.randint(0, 3))])
+        return tar(*[rnd(depth + 1) for _ in range(rng.choice([0, 1, 1, 1, 2]))], unsafe=rng.random() < 0.1)
+    out = list(fixed)
+    while len(out) < n:
+        out.append(rnd(0))
+    return out
+
+
 def c07(tier: str) -> int:
     v = Verdict('C07', tier)
     check_universe_file()
@@ -308,6 +353,7 @@ def c07(tier: str) -> int:
     v.assumptions = ['archives and compressed files are built with the standard library',
                      'the order in which the packages of a collection are added is unspecified']
     model(v, thorough)
+    v.add_model('MC_Project (what add() finds at a path: every tree of depth <= 2)', tlc_model('MC_Project'))
     snaps = make_snapshots({'S0': [], 'S1': [['add', 'Ra1', 'xml']],
                             'S3': [['add', 'Ra1', 'xml'], ['add', 'Rx', 'xml']]})
     names = ['Ra1', 'Rar', 'Rax', 'Rx', 'Ry', 'Ru', 'Rf10', 'Rf11'] + (['Ra2', 'Rr', 'Rab', 'Rxa', 'Raa', 'Rua'] if thorough else [])
@@ -331,6 +377,11 @@ def c07(tier: str) -> int:
                          'ops': [['addcoll', ['Ra1', 'Ru'], route], ['addcoll', ['Ra1', 'Ru'], 'coll']]})
             jobs.append({'mode': 'walkfrom', 'snap': snaps[sname],
                          'ops': [['addcoll', ['Ra2', 'Rr', 'Rab'], route]]})
+    # arbitrary trees of directories / archives / files (spec/WnProject.tla)
+    trees = project_trees(rng if (rng := random.Random(seed() + 7)) else None, 400 if thorough else 60)
+    for sname in ('S0', 'S1'):
+        for t in trees:
+            jobs.append({'mode': 'walkfrom', 'snap': snaps[sname], 'ops': [['addtree', t]]})
     res = run_driver('drv_store.py', jobs, timeout=3000)
     recs = []
     pairs = set()
@@ -355,7 +406,9 @@ def c07(tier: str) -> int:
     v.cov['routes'] = ROUTES
     v.cov['rule'] = ('resources x supply routes x start states, each route followed by a repetition '
                      'through another route; ILI files by 6 routes; collections of 2 and 3 independent '
-                     'packages as directory and tar archives; non-trivial = the add installed something')
+                     'packages as directory and tar archives; arbitrary trees of directories / archives / '
+                     'compressed files incl. the shapes that must be refused (spec/WnProject.tla); '
+                     'non-trivial = the add installed something')
     for r in recs[3:6]:
         v.sample({'op': r['op'], 'ret': r.get('ret'), 'pre': r['pre']['inst'], 'post': r['post']['inst'],
                   'inputs_unchanged': r.get('inputs_unchanged')})
